@@ -70,7 +70,7 @@ class LiborSDEFunction(SDEFunction):
         m, d = sigma.shape
         super().__init__(m=m, d=d)
         self._sigma = sigma
-        self.tenors = tenors
+        self.tenors = np.asarray(tenors, dtype=float)
 
     def sigma(self, t: float):
         """The sigma coefficient corresponding to the Libor with tenor T is zero for t >= T (the Libor rate fixes at T)
@@ -99,7 +99,7 @@ class ForwardMarketSDEFunction(SDEFunction):
         m, d = sigma.shape
         super().__init__(m=m, d=d)
         self._sigma = sigma
-        self.tenors = tenors
+        self.tenors = np.asarray(tenors, dtype=float)
 
     def sigma(self, t: float):
         """The sigma coefficient corresponding to the OIS term rate for the period [Ti, Ti+1]. It is 0 for t >= Ti+1 and
@@ -111,9 +111,11 @@ class ForwardMarketSDEFunction(SDEFunction):
         else:
             res = self._sigma.copy()
             g = np.minimum(
-                1, np.maximum(0, self.tenors - t) / (self.tenors[1:] - self.tenors[:-1])
+                1,
+                np.maximum(0, self.tenors[1:] - t)
+                / (self.tenors[1:] - self.tenors[:-1]),
             )
-            res = res * np.diag(g)
+            res = res * g[:, np.newaxis]
             return res
 
     def __call__(self, t: float, x: np.array) -> np.array:
